@@ -14,6 +14,8 @@ Go sources modelled (istio/istio):
                                              (Authorize is the abstract function `Cluster.authz`)
   pilot/pkg/credentials/kube/multicluster.go ForCluster, AggregateController (lookup order, auth controller)
   pilot/pkg/model/typed_xds_cache.go         Get / Add / ClearAll of the SDS cache as a map keyed by the key string
+  pilot/pkg/model/gateway.go                 mergeGateways: the computation of VerifiedCertificateReferences
+  pilot/pkg/model/credentials/resource.go    ToResourceName
 
 Conventions: a Go string is a `List Char` (`Str`), so that splitting and prefix tests are structural
 recursions the theorems can reason about; the driver converts with `String.toList` / `String.ofList`.
@@ -463,5 +465,96 @@ def generate (w : World) (cache : Cache) (p : Proxy) (names : List Str) (req : O
             let rs := filterAuthorized p id (pa.auth.authz id.sa id.ns)
               (parseResources names id.ns p.cluster w.configCluster)
             some (genLoop w rq pa ca rs { cache := cache })
+
+/-! ### MergedGateway.VerifiedCertificateReferences (pilot/pkg/model/gateway.go mergeGateways) -/
+
+def builtinURI : Str := ['b', 'u', 'i', 'l', 't', 'i', 'n', ':', '/', '/']
+def defaultName : Str := ['d', 'e', 'f', 'a', 'u', 'l', 't']
+def listenerSetPrefix : Str := ['L', 'i', 's', 't', 'e', 'n', 'e', 'r', 'S', 'e', 't', '/']
+
+/-- `credentials.ToResourceName`. -/
+def toResourceName (name : Str) : Str :=
+  if hasPrefix name builtinURI then defaultName
+  else if hasPrefix name invalidURI then invalidURI
+  else if hasPrefix name configmapURI || hasPrefix name kubernetesURI || hasPrefix name gatewayURI then name
+  else kubernetesURI ++ name
+
+/-- A `networking.Server` as far as the reference computation reads it. -/
+structure GwServer where
+  hasPort   : Bool
+  credNames : List Str
+  credName  : Str
+  isMutual  : Bool
+  caCert    : Str
+  deriving DecidableEq, Repr
+
+/-- A Gateway `config.Config`: namespace, the three internal annotations, servers. -/
+structure GwConfig where
+  ns          : Str
+  saAnn       : Str
+  parentNsAnn : Str
+  parentsAnn  : Str
+  servers     : List GwServer
+  deriving DecidableEq, Repr
+
+/-- `gwKind == gvk.ListenerSet`. -/
+def GwConfig.listenerSet (g : GwConfig) : Bool := hasPrefix g.parentsAnn listenerSetPrefix
+
+/-- `expectedNS`. -/
+def GwConfig.expectedNs (g : GwConfig) : Str := if g.parentNsAnn ≠ [] then g.parentNsAnn else g.ns
+
+/-- `identityVerified`: the proxy's verified identity when it matches the gateway's expected namespace and
+    (if annotated) service account. -/
+def identityVerified (vid : Option Identity) (g : GwConfig) : Option Identity :=
+  match vid with
+  | some id => if id.ns = g.expectedNs ∧ (id.sa = g.saAnn ∨ g.saAnn = []) then some id else none
+  | none => none
+
+/-- `PushContext.SecretAllowed(kind, resourceName, namespace)` - ReferenceGrant evaluation, abstract.
+    The first argument says whether the kind is ListenerSet (else KubernetesGateway). -/
+abbrev Grants := Bool → Str → Str → Bool
+
+/-- `lookupNamespace`. -/
+def lookupNs (g : GwConfig) (id : Identity) : Str := if g.listenerSet then g.ns else id.ns
+
+/-- "same namespace is always allowed": `err == nil && configAndProxyAllowed && parse.Namespace == lookupNamespace`. -/
+def sameNsRef (g : GwConfig) (id : Identity) (rn : Str) : Bool :=
+  match parseResourceName rn id.ns [] [] with
+  | some sr => (g.ns = id.ns || g.listenerSet) && sr.ns = lookupNs g id
+  | none => false
+
+/-- References inserted for one credential name of a server. -/
+def credRefs (granted : Grants) (g : GwConfig) (id : Identity) (mtls : Bool) (cn : Str) : List Str :=
+  if cn = [] then []
+  else if hasPrefix cn builtinURI then []
+  else
+    let rn := toResourceName cn
+    if sameNsRef g id rn || granted g.listenerSet rn (lookupNs g id) then
+      (if mtls then [rn, rn ++ cacertSuffix] else [rn])
+    else []
+
+/-- The reference inserted for `caCertCredentialName`. -/
+def caRefs (granted : Grants) (g : GwConfig) (id : Identity) (ca : Str) : List Str :=
+  if ca ≠ [] ∧ hasPrefix ca gatewayURI then
+    let rn := toResourceName ca
+    match parseResourceName rn id.ns [] [] with
+    | some _ => if sameNsRef g id rn || granted g.listenerSet rn (lookupNs g id) then [rn] else []
+    | none => []
+  else []
+
+def serverRefs (granted : Grants) (g : GwConfig) (id : Identity) (s : GwServer) : List Str :=
+  if !s.hasPort then []
+  else
+    (if s.credNames.isEmpty then [s.credName] else s.credNames).flatMap (credRefs granted g id s.isMutual) ++
+      caRefs granted g id s.caCert
+
+def gatewayRefs (granted : Grants) (vid : Option Identity) (g : GwConfig) : List Str :=
+  match identityVerified vid g with
+  | none => []
+  | some id => g.servers.flatMap (serverRefs granted g id)
+
+/-- `mergeGateways(...).VerifiedCertificateReferences` (as a list read as a set). -/
+def verifiedRefs (granted : Grants) (vid : Option Identity) (gws : List GwConfig) : List Str :=
+  gws.flatMap (gatewayRefs granted vid)
 
 end IstioModel.C11
